@@ -110,6 +110,8 @@ REWRITES = {
     "param_to_string": ("re", r"\bparam\.to_string\(\)", "param_text(param)", "Display of a parameter entry (format!) -> opaque shim"),
     "errs_map_collect": ("re", r"(?s)self\s*\.into_iter\(\)\s*\.map\((\|err\| .*?)\)\s*\.collect\(\)", r"errs_map_collect(self, \1)", "v.into_iter().map(f).collect() -> shim with the same std body; `map` applies f to each element in order (assumed, R6)"),
     "message_to_string": ("re", r"\bmessage\.to_string\(\)", "message_text(message)", "Display of an ErrorMessage (thiserror format!) -> opaque shim"),
+    "tokens_from_gd_offset": ("re", r"&tokens\[gd\.offset\.\.\]", "slice_from(tokens, gd.offset)", "&s[a..] (RangeFrom indexing) -> shim, panics iff a > len"),
+    "captured_mut_pos": ("re", r"&mut previous_token_pos\b", "previous_token_pos", "R6: a captured mutable local of the enclosing function becomes a `&mut` parameter of the lifted closure; `&mut x` at its uses becomes `x`"),
     "box_as_ref": ("re", r"\bboxed\.as_ref\(\)", r"&**boxed", "Box::as_ref on &Box<T> replaced by its std body `&**self` (no vstd spec; generic over the allocator)"),
     "self_name_clone_to_callee": ("re", r"self\.name\.value\.clone\(\)", r"string_clone(&callee.value)", "captured field path `self.name` of the lifted loop body becomes the parameter `callee` (R6); String::clone -> shim"),
     "ref_ne": ("re", r"\barg_type != param_type\b", r"!datatype_eq(arg_type, param_type)", "`!=` on two `&DataType` (PartialEq for references) written as the derived comparison it resolves to"),
